@@ -390,6 +390,23 @@ def r5_agree(run, F):
     for c in ("MAX_ADDRESS_DEPTH", "MAX_REFERENCE_DEPTH"):
         va, vd = F.const_value("alpha::parser::" + c), F.const_value("delta::parser::" + c)
         run.ob("R5-DEPTH-LIMITS", c, va == vd, "src/alpha/parser.rs / src/delta/parser.rs", "%s: alpha %s, delta %s" % (c, va, vd))
+    # ... and the same number of reference steps is the largest accepted one
+    ar = F.body("alpha::parser::parse_rest_of_reference")
+    conds = [hirq.summarize_bool(n["cond"]) for n in walk(ar["hir"]) if n.get("k") == "If" and "MAX_REFERENCE_DEPTH" in str(hirq.summarize_bool(n["cond"]))]
+    a_max = {"(steps.len() > MAX_REFERENCE_DEPTH)": 0, "(steps.len() >= MAX_REFERENCE_DEPTH)": -1}.get(conds[0]) if len(conds) == 1 else None
+    dr = F.body("delta::parser::parse_deref_steps_list")
+    d_max = None
+    for m in hirq.matches(dr["hir"], msrc=None):
+        if (m.get("msrc") or "").startswith("ForLoopDesugar") and m["scrut"].get("a"):
+            rng = hirq.unwrap_trivial(m["scrut"]["a"][0])
+            txt = rng.get("src") or ""
+            if rng.get("k") == "Struct" and str(rng.get("path", "")).endswith("ops::Range") and txt.replace(" ", "") == "0..MAX_REFERENCE_DEPTH":
+                d_max = -1     # MAX iterations: the MAX-th step is consumed and the loop falls into the error
+            elif txt.replace(" ", "") == "0..=MAX_REFERENCE_DEPTH":
+                d_max = 0      # MAX + 1 iterations: the last one may find no further step and return
+    run.ob("R5-DEPTH-LIMITS", "largest accepted number of reference steps", a_max is not None and a_max == d_max, "%s / %s" % (F.where(ar), F.where(dr)),
+           "relative to MAX_REFERENCE_DEPTH the first generation accepts up to MAX%+d steps (%s), the second up to MAX%+d" % (
+               a_max if a_max is not None else 99, conds, d_max if d_max is not None else 99))
 
 
 def _bool_table(F, fn):
@@ -435,6 +452,23 @@ def r7_list_shapes(run, F):
                "two items are never accepted without a comma between them")
 
 
+def r8_literal_delimiters(run, F):
+    """The XML dump shows a literal's source text without its delimiters; a trim that removes *every* leading/trailing
+    quote also removes an escaped quote at the end of the content (`"a\\""` dumped as `a\\`)."""
+    n = 0
+    for p, b in F.lib.bodies.items():
+        if "hir" not in b or not F.rel(b["file"]).endswith("delta/parser/parse_tree_xml.rs"):
+            continue
+        for c in hirq.calls(b["hir"]):
+            if c.get("k") == "MethodCall" and c.get("name") in ("trim_matches", "trim_start_matches", "trim_end_matches"):
+                a = hirq.unwrap_trivial(c["a"][0]) if c.get("a") else {}
+                if a.get("k") == "Lit" and a.get("v") in ('"', "'", 34, 39):
+                    n += 1
+                    run.ob("R8-LITERAL-DELIMITERS", "%s|%s" % (b["npath"].split("::")[-1], c["name"]), False, F.where(b, c),
+                           "literal source trimmed with %s(%r): removes quotes that belong to the content; strip exactly one delimiter on each side" % (c["name"], a.get("v")))
+    run.ob("R8-LITERAL-DELIMITERS", "scan", True, "src/delta/parser/parse_tree_xml.rs", "%d greedy quote trims found" % n)
+
+
 def check(run):
     F = run.facts("A")
     r1_balance(run, F)
@@ -443,3 +477,4 @@ def check(run):
     r4_depth(run, F)
     r5_agree(run, F)
     r7_list_shapes(run, F)
+    r8_literal_delimiters(run, F)
